@@ -261,19 +261,23 @@ def roots_of(n):
 
 # ------------------------------------------------------------------ running one query
 class Lookup:
-    """Context: fast lookups registered (as NamespaceManager.register_all_listeners leaves them) or deregistered."""
+    """Context: fast lookups registered (as NamespaceManager.register_all_listeners leaves them) or deregistered through
+    global_service.deregister_lookup.  The registration tables are restored exactly as they were (whatever extra
+    arguments the manager registered with)."""
     def __init__(self, on):
         self.on = on
 
     def __enter__(self):
         if not self.on:
+            self.saved = {k: dict(v) for k, v in vars(global_service).items() if k.startswith('_registered') and isinstance(v, dict)}
             global_service.deregister_lookup('.NAME')
             global_service.deregister_lookup('EDIF.identifier')
 
     def __exit__(self, *a):
         if not self.on:
-            global_service.register_lookup('.NAME', NM.lookup)
-            global_service.register_lookup('EDIF.identifier', NM.lookup)
+            for k, v in self.saved.items():
+                d = getattr(global_service, k)
+                d.clear(); d.update(v)
 
 
 def call(fn, root, q, flt=None):
